@@ -107,7 +107,7 @@ var Properties = []Property{
 		Rules:   []string{"ANCHOR", "W1", "W2", "W3", "T5d"},
 		Floors:  map[string]int{"W1.entries": 10, "W3.nodes": 10},
 		Explain: "Structural necessary conditions only: the stem->variable table agrees with the upstream stems, the committed files and the variables the library reads; main passes (stem, variable) in that order and stops on error; the words given to the template are strings.Split(string(ReadAll(Get(url/stem.txt).Body)), \"\\n\") with no call in between; the output is <dir>/<stem>.go opened with O_CREATE|O_TRUNC; every error is returned; the template tree is `package wordlist; var {{.Variable}} = []string{ {{range .WordList}}{{if .}}\"{{.}}\",{{end}}{{end}} }`. The rendered bytes, compilation of the output and HTTP failure modes are not decided.",
-		Trusted: []string{"html/template renders text outside HTML contexts as modelled (changes only NUL \" & ' + < >)", axTool, axChecker}},
+		Trusted: []string{"html/template renders text outside HTML contexts as modelled (changes only NUL \" & ' + < >)", "go/format.Source changes white space only", "bufio.Scanner with its default split function yields the pieces between line feeds (a trailing CR dropped), without an empty last piece, and reports an early end through Err", "os.Rename replaces the target by the renamed file; os.WriteFile creates or truncates", "a command-line option is judged at its default value", axTool, axChecker}},
 }
 
 func PropertyByID(id string) *Property {
